@@ -98,11 +98,28 @@ func sameList(a, b []any) bool {
 		return false
 	}
 	for i := range a {
-		if a[i] != b[i] {
+		if diffAny(a[i], b[i]) {
 			return false
 		}
 	}
 	return true
+}
+
+// diffAny is != for element values, also for those Go cannot compare (slices, maps, structs holding
+// one): these are compared deeply, which for values carrying fresh tokens is identity.
+func diffAny(a, b any) bool {
+	if a == nil || b == nil {
+		return a != b
+	}
+	ta, tb := reflect.TypeOf(a), reflect.TypeOf(b)
+	if ta != tb {
+		return true
+	}
+	if ta.Comparable() {
+		defer func() { recover() }() // a comparable struct type may still hold an interface with a slice in it
+		return a != b
+	}
+	return !reflect.DeepEqual(a, b)
 }
 
 // decorate switches on every setting that has no bearing on content semantics (presentation options,
@@ -116,7 +133,7 @@ func decorate(s stackage.Stack) stackage.Stack {
 }
 
 // fillModes is the number of construction histories fill knows.
-const fillModes = 8
+const fillModes = 10
 
 // fill gives s the content vals through one of several operation histories that all end in the same
 // logical content (start from non-initial states: a property about a tree must not depend on how the
@@ -174,6 +191,26 @@ func fill(s stackage.Stack, vals []any, mode int) {
 		s.Push(vals...)
 		s.Push("extra")
 		s.Reset()
+		s.Push(vals...)
+	case 8, 9: // every removable closure installed and removed again (mode 9: by an explicit nil) before the content arrives
+		basic := s.Kind() == "LIST"
+		s.SetEqualityPolicy(func(a, b any) error { return errCat })
+		s.SetValidityPolicy(func(...any) error { return errCat })
+		s.SetPushPolicy(func(...any) error { return errCat })
+		s.SetMarshaler(func(...any) error { return errCat })
+		s.SetUnmarshaler(func(...any) ([]any, error) { return nil, errCat })
+		if !basic {
+			s.SetPresentationPolicy(func(...any) string { return "never" })
+		}
+		if mode%fillModes == 8 {
+			s.SetEqualityPolicy().SetMarshaler().SetUnmarshaler()
+		} else {
+			s.SetEqualityPolicy(nil).SetMarshaler(nil).SetUnmarshaler(nil)
+		}
+		s.SetValidityPolicy(nil).SetPushPolicy(nil)
+		if !basic {
+			s.SetPresentationPolicy(nil)
+		}
 		s.Push(vals...)
 	default:
 		s.Push(vals...)
